@@ -1,5 +1,5 @@
 (* C14 - Retention removes only expired, closed segments and never rewinds offsets. *)
-From IggyV Require Import Base.Tactics Base.ListX Model.Part Model.PartSpec Proofs.PartBasics Proofs.PartHistory.
+From IggyV Require Import Base.Tactics Base.ListX Model.Part Model.PartSpec Proofs.PartBasics Proofs.PartHistory Proofs.PartCounts Proofs.CacheHistory Proofs.OffsetsHistory Proofs.ReadExact Proofs.ReadPart Proofs.ReadHistory Proofs.ExpiryBasics Proofs.ExpiryHistory.
 Open Scope N_scope.
 
 Definition C14_full : Prop := forall c t0 ops, model_check c t0 ops = 0.
@@ -33,7 +33,46 @@ Proof.
   destruct (maintain_cur (fst (pfinal (c, part_new c t0) ops)) now (snd (pfinal (c, part_new c t0) ops))) as [A B]. unfold abase. rewrite A, B. reflexivity.
 Qed.
 
+(* PROVED, history level, EXPIRY-BASED AND SIZE-BASED retention together (every operation list; a message expiry may be configured
+   and changed at will; maintenance passes at arbitrary times; side conditions: segment size > 0, offsets < 2^32, log files
+   < 2^32 bytes, send timestamps non-zero and never going backwards): in every reachable state a maintenance pass
+   (1) removes a PREFIX of the stored messages made of whole segments - what remains is a suffix, still one gap-free run,
+   (2) leaves the next offset to be assigned unchanged,
+   (3) in its expiry phase removes only messages whose timestamp + expiry <= now (each removed segment is closed and its
+       newest message - hence every message in it - has expired),
+   (4) and removes nothing else when the topic has no size limit. *)
+Theorem C14_retention_history : forall ops c t0 now, 0 < c_seg c -> times_ok 0 ops -> Forall bounds_ok (prun_states (c, part_new c t0) ops) ->
+  let c' := fst (pfinal (c, part_new c t0) ops) in let p := snd (pfinal (c, part_new c t0) ops) in
+  (exists removed, part_all p = removed ++ part_all (maintain c' now p)) /\
+  contig (first_start (maintain c' now p)) (part_all (maintain c' now p)) /\ abase (maintain c' now p) = abase p /\
+  (forall e, c_expiry c' = Some e ->
+     exists removed, part_all p = removed ++ part_all (expire c' now p) /\ forall m, In m removed -> m_ts m + e <= now) /\
+  (c_max c' = None -> maintain c' now p = expire c' now p).
+Proof.
+  intros ops c t0 now Hseg Ht Hb. cbn zeta. destruct (history_E0 ops c t0 Hseg Ht Hb) as [HE _]. apply (maintain_pass _ _ _ now HE).
+Qed.
+
+(* the side conditions are met by ordinary histories with an expiry, and the pass really removes something: three closed
+   segments, the clock advanced so that the first two have expired *)
+Example C14_retention_nonvacuous :
+  let c := {| c_req := 2; c_seg := 150; c_cache := true; c_idx := true; c_dedup := false; c_expiry := Some 100; c_max := None; c_del_oldest := false |} in
+  let ops := [OSend 10 [(1, 10, 0); (2, 10, 0)]; OSend 11 [(3, 40, 0)]; ORestart 12; OSend 50 [(4, 10, 0); (5, 10, 0); (6, 10, 0)]; OMaintain 60;
+              OSend 90 [(7, 1, 0)]; OSave; OSetCfg (Some 70) None; OSend 95 [(8, 1, 0); (9, 1, 0)]; OSend 97 [(10, 1, 0)]] in
+  let c' := fst (pfinal (c, part_new c 1) ops) in let p := snd (pfinal (c, part_new c 1) ops) in
+  0 < c_seg c /\ times_ok 0 ops /\ Forall bounds_ok (prun_states (c, part_new c 1) ops) /\
+  map m_off (part_all p) = [0; 1; 2; 3; 4; 5; 6; 7; 8; 9] /\ map m_off (part_all (maintain c' 125 p)) = [6; 7; 8; 9].
+Proof.
+  intros c ops c' p. split; [reflexivity|]. split; [cbn; repeat split; lia|].
+  split; [|vm_compute; split; reflexivity].
+  apply Forall_forall. intros q Hq.
+  assert (Hall : forallb (fun q => (abase q <=? B32) && size_okb q) (prun_states (c, part_new c 1) ops) = true) by (vm_compute; reflexivity).
+  rewrite forallb_forall in Hall. specialize (Hall q Hq). apply andb_true_iff in Hall. destruct Hall as [H1 H2].
+  split; [apply N.leb_le; exact H1 | apply size_okb_ok; exact H2].
+Qed.
+
 Print Assumptions C14_cursor_unchanged.
 Print Assumptions C14_only_expired_closed.
 Print Assumptions C14_survivors_untouched.
 Print Assumptions C14_size_retention_partial.
+Print Assumptions C14_retention_history.
+Print Assumptions C14_retention_nonvacuous.
